@@ -29,8 +29,8 @@ ASSUMPTIONS = [
     "rate limit: only gross breaches are verdicts (more than `limit` requests inside half a period); anything subtler is statistics",
     "after a stop at most one further request per worker (and per stateful thread) is allowed",
 ]
-MIN_EVALUATIONS = {"quick": 100, "thorough": 900}
-MIN_NONTRIVIAL = {"quick": 50, "thorough": 330}
+MIN_EVALUATIONS = {"quick": 60, "thorough": 600}
+MIN_NONTRIVIAL = {"quick": 40, "thorough": 120}
 REACH_FLOORS = {"bound_reached:max_examples": 8, "bound_reached:max_failures": 5, "bound_reached:steps": 2, "stops_with_later_events": 5, "unique_collisions_forced": 3, "rate_saturated": 1}
 SHARD_TIMEOUT = {"quick": 900, "thorough": 5400}
 
